@@ -257,6 +257,34 @@ func playScenario(sc *Scenario, w *bufio.Writer) {
 			var sp0 int
 			json.Unmarshal(op[2], &sp0)
 			m.EmitCPM(w, string(op[1]), sp0)
+		case "fork":
+			// the host takes a value copy of the CPU (a save-state, a forked machine) and goes on with the copy; the
+			// original is overwritten with garbage so that anything the copy still shares with it shows
+			n := *m.CPU
+			old := m.CPU
+			m.CPU = &n
+			var junk [27]int
+			for i := range junk {
+				junk[i] = (0xa5 + 37*i) & 0xff
+			}
+			junk[20], junk[21] = 0x5aa5, 0xa55a
+			SetRegs(&old.States, junk)
+			old.HALT = !old.HALT
+			fmt.Fprintln(w, `{"e":"fork"}`)
+		case "regs":
+			// the host loads registers (starts another program on the same CPU); HALT is left as it is
+			var r [27]int
+			json.Unmarshal(op[1], &r)
+			SetRegs(&m.CPU.States, r)
+			fmt.Fprintf(w, `{"e":"regs","r":%s}`+"\n", jInts(r[:]))
+		case "con":
+			// the host reconfigures the console writer of the mini CP/M machine
+			var kind string
+			json.Unmarshal(op[1], &kind)
+			if m.SetCon != nil {
+				m.SetCon(kind)
+			}
+			fmt.Fprintln(w, `{"e":"con"}`)
 		case "w":
 			m.WholeAndEmit(w)
 		case "swapmem":
